@@ -1,13 +1,18 @@
 _V = 'xdoctest.static_analysis:TopLevelVisitor.'
 PROPERTY = {
     'id': 'C07',
-    'contract_modules': ['util_import', 'static_analysis'],
+    'contract_modules': ['util_import', 'static_analysis', 'parser'],
     'functions': [_V + 'visit_FunctionDef', _V + 'visit_ClassDef', _V + 'visit_If', 'ast:NodeVisitor.generic_visit', _V + '_get_docstring',
                   _V + '_workaround_func_lineno', 'xdoctest.static_analysis:CallDefNode.__init__',
-                  'xdoctest.static_analysis:package_modpaths', 'xdoctest.utils.util_import:_platform_pylib_exts'],
+                  'xdoctest.static_analysis:package_modpaths', 'xdoctest.utils.util_import:_platform_pylib_exts',
+                  'xdoctest.core:parse_google_docstr_examples#blocks', 'xdoctest.core:parse_auto_docstr_examples#dispatch',
+                  'xdoctest.core:parse_freeform_docstr_examples#offsets', 'xdoctest.docstr.docscrape_google:split_google_docblocks',
+                  'xdoctest.core:parse_google_docstr_examples', 'xdoctest.core:parse_freeform_docstr_examples'],
     'extra': ['bounded.c07_dispatch.run'],
     'clauses': {
-        'P': ['visit_FunctionDef (also the handler of async functions): records exactly one entry, under name or Class.name, unless a decorator '
+        'P': ['google style: exactly the blocks labelled Example / Doctest / Script / Benchmark become doctests, in order, numbered 0, 1, ..; '
+              'freeform (asone): at most one doctest per docstring, exactly when some part is kept; auto: the google blocks when there are any, else freeform',
+              'visit_FunctionDef (also the handler of async functions): records exactly one entry, under name or Class.name, unless a decorator '
               'is an attribute named setter / deleter (then nothing); it never descends into the body, so nested functions and classes are not reached',
               'visit_ClassDef: a class met outside a class is recorded under its name and its body is visited exactly once with the class as '
               'context, which is restored afterwards; a class met inside a class records nothing and is not entered',
